@@ -59,6 +59,24 @@ t("frozenset_shared_two_fns", "def g1(p):\n    return p in {'alpha', 'beta', 'ga
 t("tuple_shared_two_fns", "def g1():\n    return ('alpha', ('beta', 2.5), b'raw')\ndef g2():\n    return ('alpha', ('beta', 2.5), b'raw')\nx = g1() == g2()")
 t("frozenset_case_variants", "x = 'y' in {'y', 'Y', 'yes', 'YES', 'Yes', 'n', 'N'}", lo=(3, 2))
 t("frozenset_mixed_kinds", "x = a in {1, 'one', 2.5, None, (1, 2), b'one'}", lo=(3, 2))
+# wave 6: constants sharing the writer's intern / reference tables with *fields* of earlier code objects
+# ('' is a singleton: the empty line table of a lambda is the first occurrence, a later '' the back-reference)
+t("empty_lnotab_then_empty_str", "f = lambda: 0\ns = ''\nt = b''")
+t("empty_str_then_empty_lnotab", "s = ''\nf = lambda: 0\nt = (s, '', f)")
+t("name_also_const", "def name_also_const():\n    return 'name_also_const', 'x', x\nx = 'x'")
+t("bytes_in_set_display", "x = a in {b'GIF8', b'BM', b'\\xff\\xd8'}\ny = b'GIF8'", lo=(3, 2))
+t("bytes_in_nested_tuple", "x = ((b'ab', 'ab'), [b'ab'], {b'k': b'v'}, {'k': b'ab'})")
+# beyond the small bounds (wave 6): one statement longer than two lnotab continuation records, two long statements
+# on one line, the same at line numbers above 256 (ints no longer cached, 3.10 tables split the line), generators
+# starting at a high line, more than 255 parameters
+_many_a = ", ".join("a" for i in range(300))
+_half_a = ", ".join("a" for i in range(140))
+t("long_statement", "x = [" + _many_a + "]\ny = 1")
+t("long_statement_pair_one_line", "x = [" + _half_a + "]; y = [" + _half_a + "]\nz = 1")
+t("high_line_long_statement", "\n" * 300 + "x = [" + _half_a + "]\ny = 1")
+t("high_line_generator", "\n" * 300 + "def g(n):\n    for i in range(n):\n        yield i\nx = list(g(3))")
+t("many_params", "def g(" + ", ".join("p%d" % i for i in range(260)) + "):\n    return p0, p259\nx = g", lo=(3, 7))
+t("many_kwonly_params", "def g(q, *, " + ", ".join("k%d=%d" % (i, i) for i in range(258)) + "):\n    return q, k257\nx = g(1)", lo=(3, 7))
 t("const_equal_distinct", "x = (0.0, -0.0, 1, 1.0, True, (1, 2), (1.0, 2.0), 0, False, 0j)")
 
 # ---- functions --------------------------------------------------------------
